@@ -122,6 +122,11 @@ def run_group(ctx, prop, lean=True, other_tiers=True):
     if prop == 'C17':
         from checks import proofs_uf
         proofs_uf.run_uf(ctx, prop)
+    # exception-escape contracts of the readers are C18 obligations that also carry C06 / C14 clauses
+    # ("raises ValueError - it never fails in another way")
+    sub = {'C06': ('raises.dimacs', 'raises.dimacs.file'), 'C14': ('raises.graph_readers',)}.get(prop)
+    if sub:
+        run_effects_subset(ctx, 'C18', sub)
     ctx.assume('pyvc: home-made symbolic executor over the real AST (DESIGN 2.1); python ints = mathematical ints (exact); '
                'declared parameter types; lemma schemas of pyvc/specs.py as proved in lemmas/*.lean (correspondence by name, lemmas/manifest.json)')
     ctx.assume('z3 5.1 (python API), /usr/bin/cvc5 and /usr/bin/z3 4.8 for z3 unknowns')
@@ -160,6 +165,33 @@ def _report(ctx, prop, fname, c, ob):
     ctx.violation(key, what, {'obligation': ob.ident, 'verdict': ob.verdict, 'line': ob.line,
                               'model': ob.model, 'hyps': [str(h)[:300] for h in ob.hyps[-12:]], 'goal': str(ob.goal)[:600]},
                   kind='obligation-no-input')
+
+
+def run_effects_subset(ctx, owner, contract_ids):
+    """the obligations of the named effect contracts (registered under property `owner`) counted for this property"""
+    import warnings
+    from pyvc import effects
+    with warnings.catch_warnings():
+        warnings.simplefilter('ignore')
+        A, obs = effects.run_property(core.REPO, owner)
+    p = ctx.proof
+    mine = [o for o in obs if o.contract['id'] in contract_ids]
+    if not mine:
+        raise RuntimeError('vacuity guard: no effect obligation for contracts {}'.format(contract_ids))
+    nd = 0
+    for o in mine:
+        p['obligations'] += 1
+        if o.function not in p['functions']:
+            p['functions'].append(o.function)
+        if o.verdict == 'discharged':
+            p['discharged'] += 1
+            nd += 1
+        for (key, what, wit) in o.failures:
+            ctx.violation(key, '{} :: contract [{}] {} :: witness: {}'.format(what, o.contract['id'], o.clause, ' -> '.join(wit)),
+                          {'fn': 'checks.proofs_effects:replay_effect', 'args': {'key': key, 'function': o.function, 'contract': o.contract['id']},
+                           'clause': o.clause, 'witness_chain': list(wit)}, kind='obligation-no-input')
+    p['by_backend']['effects-analysis'] = p['by_backend'].get('effects-analysis', 0) + nd
+    ctx.assume('effect contracts {} (exception escape of the readers; explicit raise analysis + library table, see contracts/effects_contracts.py)'.format(', '.join(contract_ids)))
 
 
 def run_lean(ctx):
